@@ -52,7 +52,7 @@ PLANS = {
                  'distinct = distinct abstract object; non-trivial = some valid run of length >= 3 with an epsilon step (automata) / derivation of length >= 3.'),
         'schedule_measure': 'distinct (abstract object, iteration order of its Q/Sigma/Gamma/F/V sets) pairs',
         'assumptions': COMMON_ASSUMPTIONS + ['a call that does not return within 400k (PDA: 1.2M) ticks is counted as not returning in finite time',
-                                             'PDA narrowing: a witness is demanded only when the library\'s own pda_accepts_word says True under the current limit'],
+                                             'PDA narrowing: a witness is demanded when the library\'s own pda_accepts_word says True under the current limit, or when every exact epsilon-closure fits under the limit (then acceptance is complete by C09)'],
         'expected_probes': ['kind_dfa', 'kind_nfa', 'kind_pda', 'kind_cfg', 'epsilon_cycle_present', 'run_with_epsilon_steps', 'nontrivial', 'limit_above_default', 'inplace_edit_between_calls'],
         'technique': 'deterministic simulation: seeded search over set-iteration schedules (PYTHONHASHSEED x renaming x insertion order) under a simulated tick clock (bounded liveness); independent witness re-checker; minimised replay files',
         'level_text': 'seeded sampling of automata/grammars x words x schedules; every returned run/derivation is re-checked step by step against the snapshot by an independent checker, acceptance comes from the reference, and every call must return within the tick budget; evidence, not proof',
